@@ -133,7 +133,14 @@ func makeConfig(rm engine.RelationManager) (importCfg, error) {
 		if err != nil {
 			return cfg, fmt.Errorf("err parsing indexes: %s", err.Error())
 		}
+		if v < 0 {
+			return cfg, fmt.Errorf("err parsing indexes: negative index %d", v)
+		}
 		cfg.srcCols = append(cfg.srcCols, v)
+	}
+
+	if len(cfg.srcCols) != len(cfg.dstCols) {
+		return cfg, fmt.Errorf("%d source column(s) mapped to %d destination column(s)", len(cfg.srcCols), len(cfg.dstCols))
 	}
 
 	var err error
